@@ -1,3 +1,4 @@
+mod sched;
 mod storegen;
 mod storerun;
 mod worker;
@@ -88,8 +89,83 @@ fn main() {
             }
             println!("{{\"behaviours\": {n}, \"events\": {nev}}}");
         }
+        "sched-one" => {
+            let mut line = String::new();
+            std::io::stdin().read_line(&mut line).unwrap();
+            let sc: Value = serde_json::from_str(&line).unwrap();
+            let evs = sched::run_one(&sc);
+            let stdout = std::io::stdout();
+            let mut out = stdout.lock();
+            for e in evs {
+                writeln!(out, "{}", e).unwrap();
+            }
+            out.flush().unwrap();
+            std::process::exit(0);
+        }
+        "sched-run" => {
+            let inp = arg_val(&args, "--in").expect("--in");
+            let out = arg_val(&args, "--out").expect("--out");
+            let jobs: usize = arg_val(&args, "--jobs").map(|s| s.parse().unwrap()).unwrap_or(8);
+            let chunk: usize = arg_val(&args, "--chunk").map(|s| s.parse().unwrap()).unwrap_or(0);
+            let lines: Vec<String> = std::io::BufReader::new(std::fs::File::open(inp).unwrap())
+                .lines()
+                .map(|l| l.unwrap())
+                .filter(|l| !l.trim().is_empty())
+                .collect();
+            let n = lines.len();
+            let lines = Arc::new(lines);
+            let next = Arc::new(AtomicUsize::new(0));
+            let results: Arc<Mutex<Vec<Option<String>>>> = Arc::new(Mutex::new(vec![None; n]));
+            let mut hs = vec![];
+            for _ in 0..jobs {
+                let (lines, next, results) = (lines.clone(), next.clone(), results.clone());
+                hs.push(std::thread::spawn(move || loop {
+                    let i = next.fetch_add(1, Ordering::SeqCst);
+                    if i >= lines.len() {
+                        break;
+                    }
+                    let exe = std::env::current_exe().unwrap();
+                    let mut child = std::process::Command::new(exe)
+                        .arg("sched-one")
+                        .stdin(std::process::Stdio::piped())
+                        .stdout(std::process::Stdio::piped())
+                        .stderr(std::process::Stdio::null())
+                        .spawn()
+                        .unwrap();
+                    {
+                        let mut si = child.stdin.take().unwrap();
+                        writeln!(si, "{}", lines[i]).unwrap();
+                    }
+                    let o = child.wait_with_output().unwrap();
+                    let sc: Value = serde_json::from_str(&lines[i]).unwrap();
+                    let mut text = format!("{}\n", serde_json::json!({"e": "reset", "s": sc["s"]}));
+                    if o.status.success() {
+                        text.push_str(&String::from_utf8_lossy(&o.stdout));
+                    } else {
+                        text.push_str(&format!("{}\n", serde_json::json!({"e": "harness_died", "s": sc["s"]})));
+                    }
+                    results.lock().unwrap()[i] = Some(text);
+                }));
+            }
+            for h in hs {
+                h.join().unwrap();
+            }
+            let results = results.lock().unwrap();
+            let mut file: Option<std::io::BufWriter<std::fs::File>> = None;
+            let mut nev = 0;
+            for (i, r) in results.iter().enumerate() {
+                if file.is_none() || (chunk > 0 && i % chunk == 0) {
+                    let name = if chunk > 0 { format!("{out}.{}", i / chunk) } else { out.clone() };
+                    file = Some(std::io::BufWriter::new(std::fs::File::create(name).unwrap()));
+                }
+                let t = r.as_ref().unwrap();
+                nev += t.lines().count();
+                file.as_mut().unwrap().write_all(t.as_bytes()).unwrap();
+            }
+            println!("{{\"scenarios\": {n}, \"events\": {nev}}}");
+        }
         _ => {
-            eprintln!("usage: xsv worker|store-gen|store-replay ...");
+            eprintln!("usage: xsv worker|store-gen|store-replay|sched-one|sched-run ...");
             std::process::exit(2);
         }
     }
